@@ -258,6 +258,17 @@ func c17GenRelPolar(r *Rng) c17Poly {
 	pts := c17Path(r, fr, r.IR(2, 12))
 	s := c17Poly{Gen: "relpolar", Closed: r.Bool(), Reverse: r.P(0.15)}
 	s.V = c17Encode(r, pts, pickOne(r, []float64{0.3, 0.7, 1}), pickOne(r, []float64{0, 0.5, 1}))
+	// In a closed outline the vertex before the first one is the last one: a relative first vertex is an offset from the
+	// last vertex (which then has to be absolute). Only Close() makes that reference exist, so these outlines are not
+	// looked at while they are being built (c17CheckPoly).
+	if n := len(pts); s.Closed && n >= 3 && !s.V[n-1].Rel && r.P(0.4) {
+		d := pts[0].sub(pts[n-1])
+		v := c17PV{X: d.X, Y: d.Y, Rel: true}
+		if r.P(0.3) {
+			v.X, v.Y, v.Polar = math.Hypot(d.X, d.Y), math.Atan2(d.Y, d.X), true
+		}
+		s.V[0] = v
+	}
 	return s
 }
 
@@ -398,7 +409,7 @@ func c17CheckPoly(c *Ctx, s *c17Poly, where any) {
 	// history: the same outline, looked at (Vertices()) while it is being built - after every vertex, and after a PRNG-chosen
 	// subset of them. Looking at an unfinished outline must not change what the finished one is. (Reverse() is left out:
 	// it is defined on the vertex list as it stands.)
-	if !s.Reverse {
+	if !s.Reverse && !s.V[0].Rel {
 		for _, look := range []int64{-1, int64(c.Rng("c17look", len(s.V), int(math.Float64bits(s.V[0].X)%1000)).IR(1, 1<<20))} {
 			s2 := *s
 			s2.Look = look & (1<<62 - 1)
@@ -452,6 +463,10 @@ func c17CheckPoly(c *Ctx, s *c17Poly, where any) {
 		if v.Polar {
 			np++
 		}
+	}
+	if s.V[0].Rel && s.Closed {
+		c.Distinct(fmt.Sprintf("relpolar/first-vertex-relative-to-last/polar%v/n%d", s.V[0].Polar, min(len(s.V), 8)))
+		c.Count("closed_outlines_whose_first_vertex_is_relative_to_the_last", 1)
 	}
 	if nr+np > 0 {
 		c.Distinct(fmt.Sprintf("relpolar/rel%d/polar%d/closed%v/rev%v", min(nr, 4), min(np, 4), s.Closed, s.Reverse))
